@@ -297,7 +297,12 @@ class BaseKFACPreconditioner:
             for name, layer in self._layers.values():
                 layer.compute_a_inv(damping=self.damping)
                 layer.compute_g_inv(damping=self.damping)
-                if self._assignment.broadcast_inverses():
+                # Only gradient workers are members of the layer's gradient
+                # worker group (same guard as in step())
+                if (
+                    self._assignment.broadcast_inverses()
+                    and self._assignment.is_grad_worker(name)
+                ):
                     layer.broadcast_a_inv(
                         src=self._assignment.inv_worker(name, 'A'),
                         group=self._assignment.grad_worker_group(name),
